@@ -174,11 +174,12 @@ fn match_place(single: &Arc<Single>, is_job_activity: bool, activity_ctx: &Activ
                 is_same_tag && is_same_location && is_proper_time
             })
             .map(|(idx, place)| {
-                // NOTE search for the latest occurrence assuming that times are sorted
+                // NOTE search for the earliest occurrence assuming that times are sorted: service which starts
+                // at the end of one time window can last till the start of the next one
                 let time = place
                     .times
                     .iter()
-                    .rfind(|time| time.intersects(activity_ctx.route_start_time, &activity_ctx.time))
+                    .find(|time| time.intersects(activity_ctx.route_start_time, &activity_ctx.time))
                     .unwrap();
 
                 let time = match time {
